@@ -461,6 +461,11 @@ func azMakeDamage(rng *fw.Rand, a *azSym, kName, pos, val string) *azDamage {
 		for i := 0; i < k; i++ {
 			idx = append(idx, T-1-i)
 		}
+	case "data":
+		if k > sym.DataWords {
+			k = sym.DataWords
+		}
+		idx = rng.Perm(sym.DataWords)[:k]
 	default:
 		idx = rng.Perm(T)[:k]
 	}
@@ -470,6 +475,9 @@ func azMakeDamage(rng *fw.Rand, a *azSym, kName, pos, val string) *azDamage {
 		v := val
 		if v == "mixed" {
 			v = []string{"random", "zeros", "ones"}[rng.Intn(3)]
+		}
+		if v == "blots" {
+			v = []string{"zeros", "ones"}[rng.Intn(2)]
 		}
 		switch v {
 		case "zeros":
@@ -549,6 +557,9 @@ var azDamagePlans = [][3]string{
 	{"k1", "random", "random"}, {"k1", "first", "zeros"}, {"k1", "last", "ones"},
 	{"kmax", "random", "random"}, {"kmax", "first", "mixed"}, {"kmax", "last", "mixed"},
 	{"krandom", "random", "zeros"}, {"krandom", "random", "ones"}, {"krandom", "random", "mixed"},
+	// blots: exactly as many codewords as can be corrected, all of them data words, all reading
+	// all-zero or all-one (a solid white or black patch)
+	{"kmax", "first", "zeros"}, {"kmax", "data", "blots"}, {"kmax", "first", "ones"},
 }
 
 func c11Matrix(r *fw.Rec, s azref.Spec, rep int) {
@@ -827,7 +838,7 @@ func c11(c *fw.Ctx) {
 	c.Floor("mode_sweep_pairs_read_more_than_1024_data_words", 1000)
 	c.Floor("portrait_canvas_reads", 50)
 	c.Floor("landscape_canvas_reads", 50)
-	nreuse := c.Pick(40, 600)
+	nreuse := c.Pick(150, 1500)
 	for i := 0; i < nreuse; i++ {
 		c.Run(fmt.Sprintf("reuse/%d", i), func(r *fw.Rec) { c11ReuseCase(r) })
 	}
